@@ -30,8 +30,11 @@ class _Mesh:
 
 class RecDisc:
     """right-hand side that records the (time, data) presented to every evaluation and what it returned"""
-    def __init__(self, fun, inner=None):
-        self.fun, self.calls, self.inner = fun, [], inner
+    def __init__(self, fun, inner=None, returns="fresh"):
+        """returns: how the right-hand side hands its result out -- 'fresh' arrays at every call, the same preallocated work
+        'buffer' (same list, same arrays, overwritten at every call), or 'asis': whatever arrays the function returns, e.g. arrays
+        it keeps and returns again (constant forcing, look-up tables).  All three are ordinary ways to write a right-hand side."""
+        self.fun, self.calls, self.inner, self.returns, self._buf = fun, [], inner, returns, None
         if inner is not None:
             self.nelem = inner.nelem
 
@@ -39,6 +42,15 @@ class RecDisc:
         k = len(self.calls)
         r = self.fun(k, f.time, [d.copy() for d in f.data]) if self.inner is None else [x.copy() for x in self.inner.rhs(f)]
         self.calls.append((f.time, [d.copy() for d in f.data], [np.array(x, dtype=float).copy() for x in r]))
+        if self.returns == "asis":
+            return r
+        if self.returns == "buffer":
+            if self._buf is None:
+                self._buf = [np.array(x, dtype=float) for x in r]
+            else:
+                for bf, x in zip(self._buf, r):
+                    bf[...] = x
+            return self._buf
         return [np.array(x, dtype=float) for x in r]
 
     def __getattr__(self, name):
@@ -47,10 +59,11 @@ class RecDisc:
         return getattr(self.inner, name)
 
 
-def extract(iname, dt=1.0, t0=0.0):
+def extract(iname, dt=1.0, t0=0.0, returns="fresh"):
     """Butcher tableau (A, b, c_presented) spelled out by the real step on unit-vector stage derivatives"""
     s = gen.NSTAGE[iname]
-    disc = RecDisc(lambda k, t, d: [np.eye(s)[k] if k < s else np.full(s, np.nan)])
+    E = np.eye(s)          # with returns='asis' the right-hand side hands out rows of this stored matrix (views)
+    disc = RecDisc(lambda k, t, d: [E[k] if k < s else np.full(s, np.nan)], returns=returns)
     solver = gen.integ(iname)(_Mesh(s), disc)
     f = ffield.fdata(_Model(), _Mesh(s), [np.zeros(s)], t=t0)
     solver.step(f, dt)
@@ -152,6 +165,12 @@ def tableau(ctx, rng, idx):
                   "tableau/%s/stability-polynomial" % iname, {"gamma": gam, "published": ref}, cls=cls)
     if iname in SSP1:
         ctx.true("ssp", _ssp_ok(A, b, 1.0), "tableau/%s/not-ssp" % iname, {"A": A, "b": b}, cls=cls)
+    # the coefficients do not depend on how the right-hand side hands its arrays out (work buffer reused, stored arrays)
+    for mode in ("buffer", "asis"):
+        A2, b2, c2, ncall2, adv2 = extract(iname, dt, t0, returns=mode)
+        same = ncall2 == ncall and np.array_equal(A2, A) and np.array_equal(b2, b) and np.array_equal(c2, c)
+        ctx.true("rhs-array-ownership", same, "tableau/%s/coefficients-depend-on-how-the-rhs-returns-its-arrays/%s" % (iname, "reused-work-buffer" if mode == "buffer" else "stored-arrays"),
+                 {"A": A, "A with this rhs": A2, "b": b, "b with this rhs": b2}, cls=cls)
     ctx.nontrivial("tableau", iname, dt, t0)
 
 
@@ -193,14 +212,23 @@ def rkness(ctx, rng, idx):
     else:
         n = int(rng.integers(1, 7))
         fun, fdesc = _nonlinear_rhs(rng, n)
-        disc = RecDisc(fun)
+        mode = str(rng.choice(["fresh", "fresh", "buffer", "stored"]))
         mesh = _Mesh(n)
         f0 = ffield.fdata(_Model(), mesh, [rng.uniform(-1, 1, n)], t=float(rng.uniform(-2, 2)))
-        if rng.random() < 0.25:
-            fun.vanish_at(f0.time)
-            fdesc["rhs_vanishes_at_step_start"] = True
         localdt = bool(rng.random() < 0.3)
         dt = 10 ** rng.uniform(-3, 0, n) if localdt else float(10 ** rng.uniform(-4, 0))
+        if mode == "stored":
+            # forcing read from a look-up table in time: the right-hand side returns arrays it KEEPS (and returns again)
+            table = [rng.uniform(-1, 1, n) for _ in range(2)]
+            pristine = [x.copy() for x in table]
+            tsplit = f0.time + float(np.min(dt)) * float(rng.choice([0.3, 0.6, 2.0, -1.0]))
+            fun = lambda k, t, d: [table[0] if t <= tsplit else table[1]]
+            fdesc = {"forcing": "stored arrays table[t > tsplit]", "table": pristine, "tsplit": tsplit}
+        elif rng.random() < 0.25:
+            fun.vanish_at(f0.time)
+            fdesc["rhs_vanishes_at_step_start"] = True
+        disc = RecDisc(fun, returns="asis" if mode == "stored" else mode)
+        fdesc["rhs_returns"] = {"fresh": "fresh arrays", "buffer": "one work buffer overwritten at every call", "stored": "arrays it keeps"}[mode]
         ctx.describe(integrator=iname, rhs="random nonlinear", localdt=localdt, dt=dt, y0=f0.data[0], t0=f0.time, **fdesc)
     solver = gen.integ(iname)(mesh, disc)
     f = f0.copy()
@@ -220,6 +248,13 @@ def rkness(ctx, rng, idx):
         ctx.ev("rkness-zero-first-stage")
     dtmin = float(np.min(dt))
     neq = len(f0.data)
+    if not real and mode == "stored":
+        # what the right-hand side returned at (t, y) must be what its definition says: its own arrays are not the integrator's to change
+        okv = all(np.array_equal(cl[2][0], pristine[0] if cl[0] <= tsplit else pristine[1]) for cl in calls) and all(np.array_equal(x, y) for x, y in zip(table, pristine))
+        ctx.true("rhs-array-ownership", okv, "rkness/%s/arrays-kept-by-the-right-hand-side-modified-by-the-integrator" % iname,
+                 {"table now": table, "table as defined": pristine, "values returned": [cl[2][0] for cl in calls]}, cls=cls)
+        expf = f0.data[0] + dt * sum(b[j] * (pristine[0] if calls[j][0] <= tsplit else pristine[1]) for j in range(s))
+        ctx.close("result", np.max(np.abs(f.data[0] - expf)) / (np.max(np.abs(f0.data[0])) + np.max(np.abs(dt)) + 1e-300), 1e-13, "rkness/%s/result-with-stored-forcing-arrays" % iname, None, cls=cls)
     for q in range(neq):
         scale = np.max(np.abs(f0.data[q])) + np.max(np.abs(dt)) * max(np.max(np.abs(cl[2][q])) for cl in calls) + 1e-300
         for i in range(s):
